@@ -171,6 +171,7 @@ func cmdCheck(args []string) {
 	fs := flag.NewFlagSet("check", flag.ExitOnError)
 	prop := fs.String("p", "", "property id")
 	tier := fs.String("tier", "quick", "quick|thorough")
+	scratch := fs.String("scratch", "", "scratch output directory: evidence, replays and work files go there (used by the self-test on mutated copies)")
 	fs.Parse(args)
 	if t := os.Getenv("VERIF_TIER"); t != "" && *tier == "" {
 		*tier = t
@@ -184,7 +185,11 @@ func cmdCheck(args []string) {
 	if *tier == "thorough" {
 		timeout = 60
 	}
-	evPath := filepath.Join(verifDir, "evidence", *prop+".json")
+	outDir := verifDir
+	if *scratch != "" {
+		outDir = *scratch
+	}
+	evPath := filepath.Join(outDir, "evidence", *prop+".json")
 	os.MkdirAll(filepath.Dir(evPath), 0o755)
 	os.Remove(evPath)
 	e, err := loadEngine(repoDir, verifDir)
@@ -231,10 +236,15 @@ func cmdCheck(args []string) {
 		}
 		fr.Obls = keep
 	}
-	work := filepath.Join(verifDir, ".work", *prop)
+	work := filepath.Join(outDir, ".work", *prop)
 	os.RemoveAll(work)
 	solveAll(work, frs, timeout, runtime.NumCPU())
 	lemmas := e.checkLemmas(*prop, work, timeout)
+	for _, o := range e.moduleScan() {
+		if hasProp(o.Tags, *prop) {
+			lemmas = append(lemmas, o)
+		}
+	}
 
 	kf := loadKnown()
 	total, discharged, violations := 0, 0, 0
@@ -246,7 +256,7 @@ func cmdCheck(args []string) {
 	assume := map[string]bool{}
 	specs := map[string]bool{}
 	notes := map[string]bool{}
-	replayDir := filepath.Join(verifDir, "replays", *prop)
+	replayDir := filepath.Join(outDir, "replays", *prop)
 	for _, fr := range frs {
 		fnames = append(fnames, fr.Name)
 		for _, a := range fr.Assumes {
